@@ -61,7 +61,9 @@ namespace Givaro
     inline ModularBalanced<double>::Element&
     ModularBalanced<double>::neg(Element& r, const Element& a) const
     {
-        return r = -a;
+        r = -a;
+        if (r < _mhalfp) r += _p; // even p: -(p/2) is p/2
+        return r;
     }
 
     inline ModularBalanced<double>::Element&
